@@ -29,7 +29,7 @@ Section PureEquiv.
   Variable prim : string -> list val -> W -> outcome F val * W.
 
   Definition run (fa : fn_ast) (args : list val) (w : W) :=
-    eval_fn cfg gen_funs prim FUEL fa args w.
+    eval_fn cfg gen_funs (direct prim) FUEL fa args w.
 
   Definition in_range (n : Z) := 0 <= n < W64.
 
